@@ -34,14 +34,16 @@ def xml_segments(xml_text):
                 rec(ch, path + [ch.get('id')], idents + [id(ch)])
             elif ch.tag == 'seg':
                 eles = []
+                comps = []
                 for x in ch:
                     if x.tag == 'ele':
                         eles.append((x.get('id'), x.text or ''))
                     elif x.tag == 'comp':
+                        comps.append((x.get('id'), [y.get('id') for y in x if y.tag == 'subele']))
                         for y in x:
                             if y.tag == 'subele':
                                 eles.append((y.get('id'), y.text or ''))
-                out.append((ch.get('id'), path, idents, eles))
+                out.append((ch.get('id'), path, idents, eles, comps))
     rec(root, [], [])
     return out, root
 
@@ -127,6 +129,11 @@ def check_case(case):
         if _canon(gotn) != _canon(expn):
             out.fail('ele-ids-or-values', 'segment #%d %s: XML %r, source %r' % (i, s.id, gotn[:8], expn[:8]))
             return out
+        # a composite carries its own reference designator (SVC01), the one its components extend (SVC01-02)
+        for cid, subs in x[4]:
+            if subs and any((sid_ or '').split('-')[0] != cid for sid_ in subs):
+                out.fail('composite-label', 'segment #%d %s: composite labelled %r holds components %r' % (i, s.id, cid, subs[:4]))
+                return out
     # back to X12
     fd, tmp = tempfile.mkstemp(prefix='vpx_c08_', suffix='.xml')
     try:
